@@ -165,6 +165,7 @@ type throttler struct {
 	trailing bool
 	stop     bool
 	pending  bool // a trailing trigger is scheduled for the end of the period
+	trail    bool // a trigger has arrived since the last permission and waits for the end of the period
 }
 
 // NewThrottle creates a throttled function in order to limit the frequency rate at which the passed in function is invoked.
@@ -195,11 +196,14 @@ func (t *throttler) Call() {
 		if delta > t.duration {
 			t.waiting = true
 			t.cond.Broadcast()
-		} else if t.trailing && !t.pending {
+		} else if t.trailing {
 			// A trigger inside the period becomes a permission only when the
 			// period is over, not right away.
-			t.pending = true
-			time.AfterFunc(t.duration-delta, t.release)
+			t.trail = true
+			if !t.pending {
+				t.pending = true
+				time.AfterFunc(t.duration-delta, t.release)
+			}
 		}
 	}
 }
@@ -210,11 +214,22 @@ func (t *throttler) release() {
 	defer t.cond.L.Unlock()
 
 	t.pending = false
-	// Skip the permission if another one was handed out in the meantime.
-	if !t.stop && time.Since(t.last) >= t.duration {
-		t.waiting = true
-		t.cond.Broadcast()
+	if t.stop || !t.trail {
+		// Nothing to hand out: cancelled, or a permission handed out in the
+		// meantime has answered every trigger so far.
+		return
 	}
+	if rest := t.duration - time.Since(t.last); rest > 0 {
+		// Another permission was handed out after this timer had been armed and
+		// a trigger has arrived since (it found the timer still pending and armed
+		// none of its own): it waits for the end of the new period.
+		t.pending = true
+		time.AfterFunc(rest, t.release)
+		return
+	}
+	t.trail = false
+	t.waiting = true
+	t.cond.Broadcast()
 }
 
 // Next returns true at most once per time period. It runs until the throttled function is not canceled.
@@ -228,6 +243,7 @@ func (t *throttler) Next() bool {
 
 	if !t.stop {
 		t.waiting = false
+		t.trail = false
 		t.last = time.Now()
 	}
 
